@@ -89,30 +89,43 @@ def pmap(cases, workers):
     pool = ctx.Pool(workers)
     try:
         pending = [pool.apply_async(_impl_chunk, (ch,)) for ch in chunks]
+        import time as _t
+
+        last_progress = _t.time()
+        done = 0
+        while done < len(chunks):
+            n = sum(1 for r in pending if r.ready())
+            if n > done:
+                done, last_progress = n, _t.time()
+            elif _t.time() - last_progress > chunk_timeout:
+                break  # nothing finished for a whole chunk timeout: the remaining workers hang
+            else:
+                _t.sleep(0.05)
         hung = []
         for i, r in enumerate(pending):
-            try:
-                results[i] = r.get(timeout=chunk_timeout)
-            except multiprocessing.TimeoutError:
+            if r.ready():
+                results[i] = r.get()
+            else:
                 hung.append(i)
-        if hung:
-            # whatever else finished in the meantime is kept
-            for i in list(hung):
-                if pending[i].ready():
-                    results[i] = pending[i].get()
-                    hung.remove(i)
     finally:
         pool.terminate()
         pool.join()
     for i in hung:
-        results[i] = [_one_with_timeout(ctx, c) for c in chunks[i]]
+        outs = []
+        for c in chunks[i]:
+            if _timeouts_seen[0] >= 5:
+                # enough hanging inputs have been identified: the rest of the unfinished work is not run
+                outs.append({"__skipped__": True})
+            else:
+                outs.append(_one_with_timeout(ctx, c))
+        results[i] = outs
     return [o for ch in results for o in ch]
 
 
 def run_model(prop, cases, impl_outs=None):
     reqs, spans = [], []
     for i, c in enumerate(cases):
-        if impl_outs is not None and _is_impl_exc(impl_outs[i]):
+        if impl_outs is not None and (_is_impl_exc(impl_outs[i]) or (isinstance(impl_outs[i], dict) and impl_outs[i].get("__skipped__"))):
             ls = []
         elif getattr(prop, "MODEL_NEEDS_IMPL", False):
             ls = prop.model_lines(c, impl_outs[i] if impl_outs is not None else prop.impl(c))
@@ -123,7 +136,7 @@ def run_model(prop, cases, impl_outs=None):
     ans = run_driver(reqs)
     outs = []
     for i, (c, (a, n)) in enumerate(zip(cases, spans)):
-        if impl_outs is not None and _is_impl_exc(impl_outs[i]):
+        if impl_outs is not None and (_is_impl_exc(impl_outs[i]) or (isinstance(impl_outs[i], dict) and impl_outs[i].get("__skipped__"))):
             outs.append(None)
         elif getattr(prop, "MODEL_NEEDS_IMPL", False):
             outs.append(prop.model_out(c, ans[a : a + n], impl_outs[i] if impl_outs is not None else prop.impl(c)))
@@ -287,6 +300,8 @@ def main(argv):
     for s, c, io, mo in zip(streams, cases, impl_outs, model_outs):
         sname = s.split(":")[0]
         stream_hist[sname] = stream_hist.get(sname, 0) + 1
+        if isinstance(io, dict) and io.get("__skipped__"):
+            continue
         if _is_impl_exc(io):
             failures.append((s, c, io, f"the real code raised {io['__impl_exception__']}: {io['message']}"))
             continue
@@ -429,12 +444,12 @@ def main(argv):
             per_stream, sample = {}, []
             for sname, c in zip(streams, cases):  # up to 40 cases of every stream
                 k = sname.split(":")[0]
-                if per_stream.get(k, 0) < 40:
+                if per_stream.get(k, 0) < 25:
                     per_stream[k] = per_stream.get(k, 0) + 1
                     sample.append(c)
             cov.start()
             try:
-                for c in sample[:600]:
+                for c in sample[:300]:
                     _impl_one(c)
             finally:
                 cov.stop()
